@@ -893,25 +893,32 @@ impl<T> Sender<T> {
             Ok(())
         } else {
             // send directly to the waitlist
-            let mut d = data.take().unwrap();
-            let sig = Signal::new_sync(KanalPtr::new_from(&mut d));
+            // Safety: MaybeUninit is acting like a ManuallyDrop, a receiver
+            // takes a bitwise copy of the value, so it must only be given
+            // back to the caller (and dropped by it) when the send failed
+            let mut d = MaybeUninit::new(data.take().unwrap());
+            let sig = Signal::new_sync(KanalPtr::new_from(d.as_mut_ptr()));
             internal.push_send(sig.get_terminator());
             drop(internal);
             if !sig.wait_timeout(deadline) {
                 if sig.is_terminated() {
-                    *data = Some(d);
+                    // Safety: data failed to move, give it back
+                    *data = Some(unsafe { d.assume_init_read() });
                     return Err(SendErrorTimeout::Closed);
                 }
                 {
                     let mut internal = acquire_internal(&self.internal);
                     if internal.cancel_send_signal(&sig) {
-                        *data = Some(d);
+                        drop(internal);
+                        // Safety: data failed to move, give it back
+                        *data = Some(unsafe { d.assume_init_read() });
                         return Err(SendErrorTimeout::Timeout);
                     }
                 }
                 // removing receive failed to wait for the signal response
                 if !sig.wait() {
-                    *data = Some(d);
+                    // Safety: data failed to move, give it back
+                    *data = Some(unsafe { d.assume_init_read() });
                     return Err(SendErrorTimeout::Closed);
                 }
             }
